@@ -42,6 +42,7 @@ fn layout(ch: &mut Chooser) -> cfb::Layout {
         name_garbage: ch.flag("cfb.stale-bytes-after-name-terminator"),
         size_hi_garbage: ch.flag("cfb.v3-junk-in-upper-half-of-size-field"),
         empty_minifat_sector: ch.flag("cfb.mini-fat-sector-without-mini-stream"),
+        spare_chain_sectors: ch.pick("cfb.spare-sectors-at-the-end-of-chains", &[0usize, 2]),
     }
 }
 
@@ -159,8 +160,32 @@ fn run_case(rep: &Report, ch: &mut Chooser, family: &str, local: &mut Vec<(u64, 
     if rep.want_sample() && ch.choices().iter().filter(|x| **x != 0).count() >= 2 { rep.sample(json!({"case": desc, "outcome": format!("{out:?}")})); }
 }
 
+/// An encrypted package of 15.7 MB in a 512-byte-sector container: more than 236 FAT sectors, i.e. two DIFAT sectors; with
+/// the streams laid out first, the directory and the FAT sit behind sector 30208.
+fn huge_package(rep: &Report) {
+    let mut pkg = 15_700_000u64.to_le_bytes().to_vec();
+    pkg.extend(cipher(15_700_000 - 8, 21));
+    let e = vec![cfb::Entry::stream("EncryptionInfo", { let mut v = vec![3, 0, 2, 0, 0x24, 0, 0, 0]; v.extend(cipher(216, 4)); v }, None), cfb::Entry::stream("EncryptedPackage", pkg, None)];
+    for order in [cfb::Order::StreamsFirst, cfb::Order::Sequential, cfb::Order::Reversed] {
+        let lay = cfb::Layout { order, ..Default::default() };
+        let bytes = cfb::write(&e, &lay);
+        for reader in ["xlsx", "xlsb"] {
+            crate::engine::crumb::set_job(&format!("C20 15.7 MB encrypted package, {order:?}, {reader}"));
+            rep.eval(1);
+            let out = open(reader, &bytes);
+            if !matches!(out, Outcome::Password) {
+                rep.fail(&format!("ooxml/two-difat-sectors/{}", match &out { Outcome::Panic(_) => "panic", Outcome::Opened => "opened", _ => "unrelated-error" }), &format!("{out:?} instead of Password for a 15.7 MB encrypted package ({order:?} sector order, {reader} reader)"),
+                    || Replay { json: json!({"family": "ooxml-huge", "order": format!("{order:?}"), "reader": reader, "note": "the 15.7 MB file is not stored; it is EncryptionInfo + EncryptedPackage of pseudo-random bytes written by gen::cfb with this sector order"}), files: vec![] });
+            }
+            rep.case(hash_of(&(format!("{order:?}"), reader, "huge")), true, hash_of(&format!("{out:?}")));
+            crate::engine::crumb::clear();
+        }
+    }
+}
+
 pub fn check(rep: &Report) {
     let t = crate::thorough(&rep.tier);
+    huge_package(rep);
     rep.rule("encrypted OOXML: EncryptedPackage of {8, 4095, 4096, 4097, 5000, 70000} bytes x EncryptionInfo {standard, agile, agile > 4096 bytes, absent} x DataSpaces storage present/absent x CFB layouts (v3/v4, 5 sector orders, mini order, unused entries, directory order, free sectors), opened with Xlsx and Xlsb; BIFF: FILEPASS of 5 kinds (BIFF8 RC4, XOR obfuscation, CryptoAPI v2/v4; the 4-byte BIFF5 XOR form in a Book stream) directly after BOF or after WRITEPROTECT, record bodies garbled, mini stream or regular sectors, CFB layouts; ods: manifests with 3-5 entries and encryption-data on the first, a middle, the last, all or several entries, ciphertext content; converse: unencrypted workbooks of all four formats (xlsx under every encoding of C01, xls under CFB layouts with extra streams, names and strings that spell 'EncryptedPackage' / 'FILEPASS' / 'encryption-data') must open; full product for ods and plain, <= 3 (thorough: full product) deviations for ooxml and biff; non-trivial = non-default choice");
     rep.assume("ciphertext is pseudo-random bytes; EncryptedPackage starts with its 8-byte size prefix");
     let stats = Mutex::new(Stats::default());
@@ -184,6 +209,7 @@ pub fn check(rep: &Report) {
 pub fn replay(path: &str) -> i32 {
     let Ok(s) = std::fs::read_to_string(path) else { return 2 };
     let v: serde_json::Value = serde_json::from_str(&s).unwrap();
+    if v["family"] == "ooxml-huge" { println!("{}", v); return 0; }
     let choices: Vec<u32> = v["choices"].as_array().unwrap().iter().map(|x| x.as_u64().unwrap() as u32).collect();
     let fam = v["family"].as_str().unwrap().to_string();
     let mut outs = vec![];
